@@ -17,6 +17,9 @@ import pools
 # name -> (Coq operator on values, function building the roller, function on values)
 BIN = {"add": ("Qcplus", operator.add, operator.add), "sub": ("Qcminus", operator.sub, operator.sub),
        "mul": ("Qcmult", operator.mul, operator.mul),
+       "and": ("(qbit And)", operator.and_, lambda x, y: Fraction(int(x) & int(y))),
+       "or": ("(qbit Or)", operator.or_, lambda x, y: Fraction(int(x) | int(y))),
+       "xor": ("(qbit Xor)", operator.xor, lambda x, y: Fraction(int(x) ^ int(y))),
        "lt": ("(fun x y => ofb (negb (Vleb y x)))", lambda a, b: a.lt(b), lambda x, y: Fraction(int(x < y))),
        "ge": ("(fun x y => ofb (Vleb y x))", lambda a, b: a.ge(b), lambda x, y: Fraction(int(x >= y))),
        "eq": ("(fun x y => ofb (Veqb x y))", lambda a, b: a.eq(b), lambda x, y: Fraction(int(x == y))),
@@ -113,8 +116,9 @@ def build(t):
     if k == "bin":
         name = t[1]
         v = _variant(t, 4)
-        if name in ("add", "sub", "mul"):
-            op = {"add": operator.__add__, "sub": operator.__sub__, "mul": operator.__mul__}[name]
+        if name in ("add", "sub", "mul", "and", "or", "xor"):
+            op = {"add": operator.__add__, "sub": operator.__sub__, "mul": operator.__mul__,
+                  "and": operator.__and__, "or": operator.__or__, "xor": operator.__xor__}[name]
             if v == 1 and t[3][0] == "val":
                 return op(build(t[2]), gens.py_outcome(t[3][1]))          # roller (op) scalar
             if v == 2 and t[2][0] == "val":
@@ -418,6 +422,8 @@ def gen_tree(rng, depth):
             tbl.append([gens.q(v), ["reroll"]])
         elif q < 0.35:
             tbl.append([gens.q(v), ["out", gens.q(rng.randint(0, 9))]])
+        elif q < 0.45:
+            tbl.append([gens.q(v), ["out", gens.q(v)]])      # a NEW outcome object with an equal value (a clamp / cap)
     if rng.random() < 0.35:
         # several live outcomes that re-roll, with a depth budget of 2 (each branch has its own budget)
         coin = ["h", [[gens.q(1), 1], [gens.q(2), 1]]]
